@@ -7,7 +7,7 @@
 #   value spec  ['none'] | ['bool', b] | ['int', i] | ['float', repr] | ['str', s] | ['list', [spec...]]
 #               | ['dict', [[str_key, spec]...]] | ['np', dtype, repr] (NumPy scalar)
 #               | ['nd', dtype, shape, layout, fill] (ndarray; layout in LAYOUTS, fill 0 = ramp, 1 = extremes)
-#   top-level key spec ['i', int] | ['s', str]
+#   top-level key spec ['i', int] | ['s', str] | ['n', dtype, int] (NumPy integer: an integer key, expected back as the equal Python int)
 # Readings adopted (DESIGN 2.13 / Appendix G): nested dictionaries have string keys (only TOP-LEVEL integer keys
 # are promised to stay integers); NaN is equal to NaN; NumPy scalars come back as the equal Python scalar
 # (`x.item()`); table string cells are non-empty, single-line and not accepted by int()/float(); "written
@@ -211,6 +211,28 @@ def compare(orig, out, path, errs):
             errs.append(('plain', path, 'expected %r got %r' % (orig, out)))
 
 
+def build_key(k):
+    if k[0] == 'i':
+        return int(k[1])
+    if k[0] == 'n':
+        return np.dtype(k[1]).type(int(k[2]))
+    return str(k[1])
+
+
+def key_forms(k):
+    """Written form and decoded form of a key spec; two keys of one dictionary must differ in both (else the file cannot hold both)."""
+    w = str(k[2]) if k[0] == 'n' else str(k[1])
+    try:
+        return w, (int(w) if w.isdigit() else w)
+    except ValueError:
+        return w, w
+
+
+def distinct_keys(ks):
+    forms = [key_forms(k) for k in ks]
+    return len({f[0] for f in forms}) == len(ks) and len({repr(f[1]) for f in forms}) == len(ks)
+
+
 def find_key(d, k):
     """The key of d that is equal to k AND of the same type (True/1/'1' are different keys here)."""
     for kk in d:
@@ -230,9 +252,10 @@ KEY_CLAUSES = ('integer-top-level-keys-stay-integers', 'string-top-level-keys-st
 
 
 def case_json(inp):
-    entries = [((int(k[1]) if k[0] == 'i' else str(k[1])), build(v)) for k, v in inp['entries']]
+    entries = [(build_key(k), build(v)) for k, v in inp['entries']]
     d = dict(entries)
     assert len(d) == len(entries)
+    d_py = {(int(k) if isinstance(k, np.integer) else k): v for k, v in d.items()}   # what "equal contents" means for NumPy integer keys
     with tempdir() as tmp:
         path = os.path.join(tmp, *inp.get('sub', []), 'state.json')
         if inp.get('pre'):  # a longer file already at the path: the loaded contents are still those just saved
@@ -243,13 +266,13 @@ def case_json(inp):
         yield 'load-returns-a-dict', type(out) is dict, type(out).__name__
         if type(out) is not dict:
             return
-        ints = [k for k in d if type(k) is int]
-        strs = [k for k in d if type(k) is str]
+        ints = [k for k in d_py if type(k) is int]
+        strs = [k for k in d_py if type(k) is str]
         yield KEY_CLAUSES[0], all(find_key(out, k) for k in ints), (ints, repr(list(out)))
         yield KEY_CLAUSES[1], all(find_key(out, k) for k in strs), (strs, repr(list(out)))
-        yield KEY_CLAUSES[2], all(find_key(d, k) for k in out) and len(out) <= len(d), repr(list(out))
+        yield KEY_CLAUSES[2], all(find_key(d_py, k) for k in out) and len(out) <= len(d), repr(list(out))
         errs = []
-        for k, v in d.items():
+        for k, v in d_py.items():
             if find_key(out, k):
                 compare(v, out[k], [k], errs)
         for aspect, clause in JSON_ASPECTS:
@@ -421,7 +444,7 @@ def _top_keys(inp):
 def _negative_int_key(case, clause, inp):
     """A negative integer top-level key is written as '-5'; '-5'.isdigit() is False so it comes back a string."""
     return case == 'json' and clause in (KEY_CLAUSES[0], KEY_CLAUSES[2]) and \
-        any(k[0] == 'i' and int(k[1]) < 0 for k in _top_keys(inp))
+        any((k[0] == 'i' and int(k[1]) < 0) or (k[0] == 'n' and int(k[2]) < 0) for k in _top_keys(inp))
 
 
 def _digit_only_str_key(case, clause, inp):
@@ -431,23 +454,28 @@ def _digit_only_str_key(case, clause, inp):
         any(k[0] == 's' and str(k[1]).isdigit() for k in _top_keys(inp))
 
 
-def _no_json_number(case, clause, inp):
-    """A complex or long-double NumPy scalar, or 1-D array of at most ten such items, goes through the
-    plain-number path (item()/tolist()), for which JSON has no representation: save_json raises."""
-    if case != 'json' or clause != 'no-unexpected-exception':
+def _no_json_number(kinds):
+    """A complex (kind 'c') or long-double (kind 'f', no Python float) NumPy scalar, or 1-D array of 1..10 such items, goes
+    through the plain-number path (item()/tolist()), for which JSON has no representation: save_json raises
+    (TypeError for complex; RecursionError for long double, whose item() is again a np.longdouble)."""
+    def pred(case, clause, inp):
+        if case != 'json' or clause != 'no-unexpected-exception':
+            return False
+        for _, v in inp.get('entries', []):
+            for s in walk(v):
+                if s[0] in ('np', 'nd') and routed_as_plain_json(s):
+                    dt = np.dtype(s[1]).newbyteorder('=')
+                    if dt.name in NO_JSON_NUMBER and dt.kind in kinds and (s[0] == 'np' or s[2][0] >= 1):
+                        return True
         return False
-    for _, v in inp.get('entries', []):
-        for s in walk(v):
-            if s[0] in ('np', 'nd') and routed_as_plain_json(s) and np.dtype(s[1]).newbyteorder('=').name in NO_JSON_NUMBER:
-                if s[0] == 'np' or s[2][0] >= 1:
-                    return True
-    return False
+    return pred
 
 
 KNOWN_CLASSES = {
     'negative-int-key-comes-back-as-str': _negative_int_key,
     'digit-only-str-key-comes-back-as-int': _digit_only_str_key,
-    'complex-or-longdouble-on-plain-number-path-not-serialisable': _no_json_number,
+    'complex-scalar-or-short-1d-array-not-serialisable': _no_json_number('c'),
+    'longdouble-scalar-or-short-1d-array-not-serialisable': _no_json_number('f'),
 }
 
 
@@ -469,6 +497,7 @@ PLAIN_VALUES = [['none'], ['bool', True], ['bool', False], ['int', 0], ['int', 1
                 ['dict', [['x', ['dict', [['y', ['dict', [['z', ['list', [['float', 'nan']]]]]]]]]]]]]
 
 KEY_ALPHABET = [['i', 0], ['i', 1], ['i', 7], ['i', 10], ['i', 2 ** 40], ['i', 10 ** 30], ['i', -1], ['i', -5], ['i', -2 ** 40],
+                ['n', 'int64', 5], ['n', 'int32', 0], ['n', 'uint16', 65535], ['n', 'uint64', 2 ** 64 - 1], ['n', 'int8', -3],
                 ['s', 'a'], ['s', 'abc'], ['s', 'a1'], ['s', '1a'], ['s', '-1'], ['s', '-x'], ['s', ''], ['s', ' '], ['s', ' 1'], ['s', '1.5'], ['s', '1e3'],
                 ['s', 'True'], ['s', 'None'], ['s', 'key with space'], ['s', 'q"uote'], ['s', '\u00e9'], ['s', 'dtype'], ['s', 'A'], ['s', '+1'],
                 ['s', '12'], ['s', '0'], ['s', '007'], ['s', '\u00b2'], ['s', '\u0661\u0662']]
@@ -568,21 +597,21 @@ def enumerate_cases(ctx):
     rng = ctx.rng
 
     # ---- JSON: keys -----------------------------------------------------------------------------------
-    ctx.scope('save_json/load_json keys: every top-level key set of size 0..2 over a %d-key alphabet (ints 0, 1, 7, 10, 2^40, 10^30, -1, -5, -2^40; '
-              'strings incl. empty, spaces, signs, float-looking, digit-only, non-ASCII digits), excluding pairs whose written forms collide; '
+    ctx.scope('save_json/load_json keys: every top-level key set of size 0..2 over a %d-key alphabet (ints 0, 1, 7, 10, 2^40, 10^30, -1, -5, -2^40; NumPy int64/int32/uint16/uint64/int8 keys; '
+              'strings incl. empty, spaces, signs, float-looking, digit-only, non-ASCII digits), excluding pairs whose written or decoded forms collide; '
               'plus all-int, all-str and mixed sets of 3..6 keys' % len(KEY_ALPHABET))
     ctx.run('json', {'entries': []})
     for k in KEY_ALPHABET:
         ctx.run('json', {'entries': [[k, ['int', 41]]], 'pre': True})
     for k1, k2 in itertools.combinations(KEY_ALPHABET, 2):
-        if str(k1[1]) == str(k2[1]):
+        if not distinct_keys([k1, k2]):
             continue
         ctx.run('json', {'entries': [[k1, ['int', 41]], [k2, ['str', 'v2']]]})
-    good = [k for k in KEY_ALPHABET if not (k[0] == 'i' and k[1] < 0) and not (k[0] == 's' and str(k[1]).isdigit())]
+    good = [k for k in KEY_ALPHABET if not (k[0] == 'i' and k[1] < 0) and not (k[0] == 'n' and k[2] < 0) and not (k[0] == 's' and str(k[1]).isdigit())]
     for size in (3, 4, 6):
         for _ in range(20 if quick else 200):
             ks = rng.sample(good, size)
-            if len({str(k[1]) for k in ks}) < size:
+            if not distinct_keys(ks):
                 continue
             ctx.run('json', {'entries': [[k, ['int', i]] for i, k in enumerate(ks)]})
     ctx.run('json', {'entries': [[['i', i], ['int', i * i]] for i in range(30)]})
@@ -637,7 +666,7 @@ def enumerate_cases(ctx):
         n = rng.randint(0, 5)
         ks = [['s', s] for s in rng.sample(skeys, rng.randint(0, n))]
         ks += [['i', i] for i in rng.sample(ikeys, n - len(ks))]
-        if len({str(k[1]) for k in ks}) < len(ks):
+        if not distinct_keys(ks):
             continue
         rng.shuffle(ks)
         ctx.run('json', {'entries': [[k, rand_value(rng, 3, skeys)] for k in ks]})
